@@ -33,7 +33,7 @@ TReset == /\ IsEv("Reset")
 TKeyGen   == IsEv("KeyGen") /\ KeyGen(A.key) /\ Ev.res = "Ok"
 TSign     == IsEv("Sign") /\ Sign(A.key, A.s, A.hdr, A.msgs) /\ Matches
 TVerify   == IsEv("Verify") /\ Verify(A.sig, A.key, A.s, A.hdr, A.msgs) /\ Matches
-TRound    == IsEv("RoundTrip") /\ RoundTrip(A.obj) /\ Ev.res = "Ok" /\ Ev.obs.same = TRUE
+TRound    == IsEv("RoundTrip") /\ RoundTrip(A.obj) /\ last'.res = Ev.res /\ (Ev.res = "Ok" => Ev.obs.same = TRUE)
 TTamper   == IsEv("Tamper") /\ Tamper(A.obj, {A.fields[j] : j \in 1 .. Len(A.fields)}, A.dl) /\ Matches
 TUpdate   == IsEv("Update") /\ Update(A.sig, A.key, A.s, A.old, A.new, A.idx, A.n) /\ Matches
 TProofGen == /\ IsEv("ProofGen") /\ ProofGen(A.sig, A.key, A.s, A.hdr, A.ph, A.msgs, A.didx) /\ Matches
